@@ -103,6 +103,26 @@ Subst(C, v) ==
     [] OTHER -> v
 ArgVal(C, a) == Subst(C, a.v)
 ArgNames(f) == {f.args[i].n : i \in DOMAIN f.args}
+\* input object values are completed with the defaults of the fields they leave out (C04), at every depth
+RECURSIVE FillIn(_, _, _)
+FillIn(U, t, v) ==
+  CASE t.k = "nonnull" -> FillIn(U, t.of, v)
+    [] t.k = "list" -> IF v.k = "list" THEN ListV([i \in DOMAIN v.v |-> FillIn(U, t.of, v.v[i])]) ELSE v
+    [] OTHER ->
+       IF v.k = "obj" /\ t.n \in DOMAIN U.types /\ U.types[t.n].kind = "INPUT_OBJECT"
+       THEN LET fds == U.types[t.n].infields
+                given == {i \in DOMAIN fds : fds[i].n \in DOMAIN v.v}
+                dflt == {i \in DOMAIN fds : fds[i].n \notin DOMAIN v.v /\ fds[i].hasDef}
+            IN V("obj", [x \in {fds[i].n : i \in given \cup dflt} |->
+                           LET fd == CHOOSE d \in Range(fds) : d.n = x
+                           IN IF x \in DOMAIN v.v THEN FillIn(U, fd.type, v.v[x]) ELSE FillIn(U, fd.type, fd.def)])
+       ELSE v
+\* (an argument the field does not declare is reported as such; it is kept as written)
+ArgMapFor(C, f, fd) ==
+  [n \in ArgNames(f) |->
+     LET raw == ArgVal(C, CHOOSE a \in Range(f.args) : a.n = n)
+     IN IF \E i \in DOMAIN fd.args : fd.args[i].n = n
+        THEN FillIn(C.U, (CHOOSE d \in Range(fd.args) : d.n = n).type, raw) ELSE raw]
 ArgMap(C, f) == [n \in ArgNames(f) |-> ArgVal(C, CHOOSE a \in Range(f.args) : a.n = n)]
 DeclNames(fd) == {fd.args[i].n : i \in DOMAIN fd.args}
 Required(fd) == {fd.args[i].n : i \in {j \in DOMAIN fd.args : fd.args[j].type.k = "nonnull"}}
@@ -156,7 +176,7 @@ EvalField(C, node, f, path) ==
      ELSE IF ~HasField(C.U, tn, f.name)
      THEN Res(V("absent", 0), <<ErrRec(p, "undefined_field", f.name)>>, <<>>)       \* C10: rejected, not resolved
      ELSE LET fd == FieldDef(C.U, tn, f.name)
-              am == ArgMap(C, f)
+              am == ArgMapFor(C, f, fd)
               undeclared == ArgNames(f) \ DeclNames(fd)
               missing == {n \in Required(fd) : n \notin DOMAIN am \/ am[n] = NullV}
           IN IF undeclared # {}
